@@ -95,30 +95,71 @@ Theorem C03_by_name_some : forall strtab rows q l,
 Proof. exact by_name_spec_some. Qed.
 Print Assumptions C03_by_name_some.
 
-(* ---- the section OBJECT has state (self._symbol_name_map, None until the first lookup by name).
-   [sym_run img c None ops] (Model/C03Sections.v) runs any sequence of calls on one fresh object:
-   num_symbols, get_symbol(n), an enumeration abandoned after k steps, get_symbol_by_name.  Every call of
-   EVERY history answers what the stateless specification [answer] (Spec/C03Sym.v) says ... *)
+(* ---- the section OBJECT has state (self._symbol_name_map, None until the first lookup by name), each
+   generator returned by iter_symbols() has a position, and the file stream is shared with every other
+   section and with the consumer.  [sym_run img c adv 0 (None, []) ops] (Model/C03Sections.v) runs any
+   sequence of calls on one fresh object: num_symbols, get_symbol(n), an enumeration abandoned after k
+   steps, get_symbol_by_name, and single next() steps of any number of live generators, where [adv t] is
+   the stream cursor at which call t starts — ARBITRARY: whatever other reads, seeks, lock-step walks
+   happened in between.  Every call of EVERY history under EVERY cursor schedule answers what the
+   specification [answers] (Spec/C03Sym.v) says ... *)
 Theorem C03_history_free : forall le is64 es rows strtab img off size stroff,
   symtab_ok is64 es rows = true -> names_ok strtab rows = true ->
   placed img off (encode_symtab le is64 rows) -> placed img stroff strtab ->
   es * zlen rows <= size < es * (zlen rows + 1) ->
-  forall calls, forallb (call_ok rows) calls = true ->
-  snd (sym_run img (cfg le is64 off size es stroff) None (map op_of calls))
-  = map (fun call => obs_of (answer strtab rows call)) calls.
+  forall adv calls, forallb (call_ok rows) calls = true ->
+  snd (sym_run img (cfg le is64 off size es stroff) adv 0 (None, []) (map op_of calls))
+  = map obs_of (answers strtab rows [] calls).
 Proof. exact history_free. Qed.
 Print Assumptions C03_history_free.
 
-(* ... in particular lookup by name returns exactly the symbols bearing the name after any history *)
+(* ... hence nothing observed depends on the cursor between calls or between two yields *)
+Theorem C03_cursor_free : forall le is64 es rows strtab img off size stroff,
+  symtab_ok is64 es rows = true -> names_ok strtab rows = true ->
+  placed img off (encode_symtab le is64 rows) -> placed img stroff strtab ->
+  es * zlen rows <= size < es * (zlen rows + 1) ->
+  forall adv adv' calls, forallb (call_ok rows) calls = true ->
+  snd (sym_run img (cfg le is64 off size es stroff) adv 0 (None, []) (map op_of calls))
+  = snd (sym_run img (cfg le is64 off size es stroff) adv' 0 (None, []) (map op_of calls)).
+Proof. exact cursor_free. Qed.
+Print Assumptions C03_cursor_free.
+
+(* ... lookup by name returns exactly the symbols bearing the name after any history *)
 Theorem C03_by_name_after_history : forall le is64 es rows strtab img off size stroff,
   symtab_ok is64 es rows = true -> names_ok strtab rows = true ->
   placed img off (encode_symtab le is64 rows) -> placed img stroff strtab ->
   es * zlen rows <= size < es * (zlen rows + 1) ->
-  forall calls q, forallb (call_ok rows) calls = true ->
-  snd (sym_run img (cfg le is64 off size es stroff) None (map op_of calls ++ [OpByName q]))
-  = map (fun call => obs_of (answer strtab rows call)) calls ++ [ObsByName (Ok (by_name_spec strtab rows q))].
+  forall adv calls q, forallb (call_ok rows) calls = true ->
+  snd (sym_run img (cfg le is64 off size es stroff) adv 0 (None, []) (map op_of calls ++ [OpByName q]))
+  = map obs_of (answers strtab rows [] calls) ++ [ObsByName (Ok (by_name_spec strtab rows q))].
 Proof. exact by_name_after_history. Qed.
 Print Assumptions C03_by_name_after_history.
+
+(* ... and the step of a generator that has taken j steps yields entry j (then StopIteration),
+   whatever was interleaved with its steps *)
+Theorem C03_next_yields_in_order : forall le is64 es rows strtab img off size stroff,
+  symtab_ok is64 es rows = true -> names_ok strtab rows = true ->
+  placed img off (encode_symtab le is64 rows) -> placed img stroff strtab ->
+  es * zlen rows <= size < es * (zlen rows + 1) ->
+  forall adv calls g, forallb (call_ok rows) calls = true ->
+  let j := epos (fold_left (advance rows) calls []) g in
+  snd (sym_run img (cfg le is64 off size es stroff) adv 0 (None, []) (map op_of calls ++ [OpNext g]))
+  = map obs_of (answers strtab rows [] calls) ++
+    [if j <? zlen rows then ObsSym (Ok (vth (views strtab rows) j)) else ObsStop].
+Proof. exact next_yields_in_order. Qed.
+Print Assumptions C03_next_yields_in_order.
+
+(* get_symbol started at any cursor: both of its reads seek *)
+Theorem C03_get_symbol_cursor_free : forall img c cur n, get_symbol_cur img c cur n = get_symbol img c n.
+Proof. exact get_symbol_cur_free. Qed.
+Print Assumptions C03_get_symbol_cursor_free.
+
+(* GNUHashTable.get_number_of_symbols as the code runs it (one seek, then reads at the cursor inside a
+   method that never yields) reads the same chain words as the indexed walk of C03_gnu_count_exact *)
+Theorem C03_gnu_count_sequential : forall le img fuel P,
+  gnu_hash_number_of_symbols_cur le img fuel P = gnu_hash_number_of_symbols (read_chain_word le img P) fuel P.
+Proof. exact gnu_number_of_symbols_cur_eq. Qed.
+Print Assumptions C03_gnu_count_sequential.
 
 (* the extended section index of symbol i is entry i of the companion SHT_SYMTAB_SHNDX table *)
 Theorem C03_section_index_exact : forall le es xrows img off size,
@@ -387,13 +428,18 @@ Example C03_ex_results :
   gnu_hash_section_number_of_symbols ex_img c 158 = Ok 4.
 Proof. vm_compute. repeat split; reflexivity. Qed.
 
-(* a history on that image: peek at the first symbol, abandon; look fooBY up (it lies beyond the stop
-   point); abandon another enumeration after two steps; look "" and an absent name up *)
+(* a history on that image, with a wild cursor schedule: generator 0 takes a step; fooBY (beyond that
+   point) is looked up; generator 1 starts a lock-step walk; generator 0 resumes after other calls; ...;
+   an absent name; generator 0 runs to StopIteration *)
 Example C03_ex_history :
   let c := cfg true true 22 100 25 3 in
-  let calls := [CIter 1; CByName [102; 111; 111; 66; 89]; CNum; CIter 2; CGet 3; CByName []; CByName [120]] in
+  let adv := fun t => 7919 * t mod 300 in
+  let calls := [CNext 0; CByName [102; 111; 111; 66; 89]; CNext 1; CNum; CNext 0; CIter 2; CGet 3; CNext 1;
+                CByName []; CNext 0; CByName [120]; CNext 0; CNext 0] in
   forallb (call_ok ex_rows) calls = true /\
-  snd (sym_run ex_img c None (map op_of calls)) = map (fun call => obs_of (answer ex_strtab ex_rows call)) calls /\
-  answer ex_strtab ex_rows (CByName [102; 111; 111; 66; 89]) = AByName (Some [vth (views ex_strtab ex_rows) 2]) /\
-  answer ex_strtab ex_rows (CByName [120]) = AByName None.
+  snd (sym_run ex_img c adv 0 (None, []) (map op_of calls)) = map obs_of (answers ex_strtab ex_rows [] calls) /\
+  nth 4 (answers ex_strtab ex_rows [] calls) AStop = ASym (vth (views ex_strtab ex_rows) 1) /\
+  nth 1 (answers ex_strtab ex_rows [] calls) AStop = AByName (Some [vth (views ex_strtab ex_rows) 2]) /\
+  nth 10 (answers ex_strtab ex_rows [] calls) AStop = AByName None /\
+  nth 12 (answers ex_strtab ex_rows [] calls) (ANum 0) = AStop.
 Proof. vm_compute. repeat split; reflexivity. Qed.
